@@ -46,13 +46,9 @@ sub ^\{ => { __CPROVER_assert(month >= 0 && month <= 12, "C09: normalize passes 
 @*/
 
 #define Y_ ((long long)fValue[CentYear])
-#define M_ ((long long)fValue[Month])
 #define D_ ((long long)fValue[Day])
-#define Q_ (12 * Y_ + M_)
 #define Y0_ ((long long)__CPROVER_loop_entry(fValue[CentYear]))
-#define M0_ ((long long)__CPROVER_loop_entry(fValue[Month]))
 #define D0_ ((long long)__CPROVER_loop_entry(fValue[Day]))
-#define Q0_ (12 * Y0_ + M0_)
 
 /*@extract src/xercesc/util/XMLDateTime.cpp XMLDateTime::normalize
 sub fQuotient\(temp, 1, 13\) => fQuotient3(temp, 1, 13)
@@ -73,11 +69,12 @@ __CPROVER_ensures((__CPROVER_old(fValue[utc]) == UTC_POS || __CPROVER_old(fValue
 __CPROVER_ensures(fValue[Second] == __CPROVER_old(fValue[Second]) && fValue[MiliSecond] == __CPROVER_old(fValue[MiliSecond]))
 loop 1
 __CPROVER_assigns(temp, carry, fValue[Day], fValue[Month], fValue[CentYear])
-__CPROVER_loop_invariant(fValue[Month] >= 1 && fValue[Month] <= 12 && Y_ >= -3 * (long long)FB && Y_ <= 3 * (long long)FB)
-__CPROVER_loop_invariant((D0_ >= 1) ==> (1 <= D_ && D_ <= D0_ && Q_ >= Q0_ && 28 * (Q_ - Q0_) <= D0_ - D_))
+__CPROVER_loop_invariant(fValue[Month] >= 1 && fValue[Month] <= 12)
+/* going forward (day >= 1): the day shrinks by a month length >= 28 while the year grows by at most 1 */
+__CPROVER_loop_invariant((D0_ >= 1) ==> (1 <= D_ && D_ <= D0_ && Y_ >= Y0_ && Y_ - Y0_ <= D0_ - D_))
 /* going backwards (day < 1): the abstraction (28 <= month length <= 31) allows one forward step after the last backward one; it ends with day in 1..3 */
-__CPROVER_loop_invariant((D0_ < 1) ==> (D0_ <= D_ && D_ <= 31 && 28 * (Q0_ - Q_) - (D_ - D0_) <= ((D_ >= 1 && D_ <= 3) ? 3 : 0) && Q_ <= Q0_ + ((D_ >= 1 && D_ <= 3) ? 1 : 0)))
-__CPROVER_loop_invariant(D0_ >= -2 * (long long)FB && D0_ <= 2 * (long long)FB && Y0_ >= -2 * (long long)FB && Y0_ <= 2 * (long long)FB && M0_ >= 1 && M0_ <= 12)
+__CPROVER_loop_invariant((D0_ < 1) ==> (D0_ <= D_ && D_ <= 31 && Y_ <= Y0_ + ((D_ >= 1 && D_ <= 3) ? 1 : 0) && Y0_ - Y_ <= D_ - D0_ + ((D_ >= 1 && D_ <= 3) ? 31 : 0)))
+__CPROVER_loop_invariant(D0_ >= -2 * (long long)FB && D0_ <= 2 * (long long)FB && Y0_ >= -2 * (long long)FB && Y0_ <= 2 * (long long)FB)
 __CPROVER_decreases((fValue[Day] < 1) ? 32 - (long long)fValue[Day] : (long long)fValue[Day])
 @*/
 
